@@ -1,6 +1,7 @@
 import Swat4.Lemmas.Filter
 import Swat4.Lemmas.FilterChecked
 import Swat4.Lemmas.FilterSound
+import Swat4.Lemmas.FilterComplete
 import Swat4.Lemmas.FilterLeniency
 /-!
 # C03 — A listing contains exactly the live servers that match status and filter
@@ -225,6 +226,27 @@ what it looks like; every string outside that grammar degrades to the blank quer
 theorem parse_sound (s : Bytes) (fs : List Filter) (h : newFromString s = .ok fs) :
     QueryText s (fs.map ofFilter) := newFromString_sound s fs h
 
+/-- **Completeness of the lenient grammar** (generalises `parse_render` beyond canonical spellings): every
+spelling `s` of a non-empty clause list `q` — `QueryText s q` — is accepted and read as exactly `q` -/
+theorem parse_complete (s : Bytes) (q : List Clause) (h : QueryText s q) :
+    newFromString s = .ok (q.map toFilter) := newFromString_complete s q h
+
+/-- **The accepted language, exactly.**  `NewFromString` accepts `s` with result `fs` if and only if `s` is a
+spelling of `fs` in the lenient grammar.  Every other byte string is rejected (and gives the blank query). -/
+theorem accepted_language (s : Bytes) (fs : List Filter) :
+    newFromString s = .ok fs ↔ QueryText s (fs.map ofFilter) := by
+  constructor
+  · exact parse_sound s fs
+  · intro h
+    have := parse_complete s _ h
+    rw [this, List.map_map]
+    congr 1
+    conv => rhs; rw [← List.map_id fs]
+    apply List.map_congr_left
+    intro f _
+    obtain ⟨fld, op, v⟩ := f
+    cases v <;> rfl
+
 /-- a leading `+` is accepted by `strconv.Atoi` and denotes the same integer (not produced by `render`) -/
 theorem plus_sign_accepted (n : Nat) (h : n < 2 ^ 63) : atoi (0x2b :: natDigits n) = some (n : Int) := by
   have hd := digitsAcc_natDigits n
@@ -285,6 +307,14 @@ theorem browser_listing_any (recs : List Record) (now liveness : Int) (s : Bytes
   conv => lhs; rw [e]
   exact selection_eq_filter recs now liveness _ (required_in_scope _ (by decide)) _
 
+/-- **C03, browser side, stated on the text**: for every spelling `s` (lenient grammar) of a non-empty clause
+list `q`, the browser's listing is exactly the specification's selection for `q` -/
+theorem C03_lenient (recs : List Record) (now liveness : Int) (s : Bytes) (q : List Clause) (h : QueryText s q) :
+    listServers recs now liveness Facts.statusMaster (browserQuery s) =
+      recs.filter fun r => selected now liveness Facts.statusMaster q (toServer r) := by
+  rw [wellformed_is_used _ _ (parse_complete s q h)]
+  exact selection_eq_filter recs now liveness _ (required_in_scope _ (by decide)) q
+
 /-- the REST listing is the specification's selection for the flags' clauses and status `info` -/
 theorem rest_listing (recs : List Record) (now liveness : Int) (f : Flags) :
     listServers recs now liveness Facts.statusInfo (prepareQuery (toForm f)) =
@@ -314,3 +344,7 @@ example : ∀ b ∈ Swat4.Filter.bitsOf Swat4.Facts.statusMaster, b ∈ Swat4.Fa
 (`+`, leading zeros, quotes inside quotes, trailing separator) -/
 example : Swat4.Filter.newFromString (Swat4.Bytes.ofAscii "numplayers>+007 and hostname='a'b' and ") =
     .ok [⟨Swat4.Bytes.ofAscii "numplayers", .gt, .int 7⟩, ⟨Swat4.Bytes.ofAscii "hostname", .eq, .str (Swat4.Bytes.ofAscii "a'b")⟩] := rfl
+/-- non-vacuity of `parse_complete` / `C03_lenient`: that non-canonical string is a `QueryText` of its two clauses -/
+example : Swat4.FilterSpec.QueryText (Swat4.Bytes.ofAscii "numplayers>+007 and hostname='a'b' and ")
+    [⟨Swat4.Bytes.ofAscii "numplayers", .gt, .int 7⟩, ⟨Swat4.Bytes.ofAscii "hostname", .eq, .str (Swat4.Bytes.ofAscii "a'b")⟩] :=
+  Swat4.C03.parse_sound _ [⟨Swat4.Bytes.ofAscii "numplayers", .gt, .int 7⟩, ⟨Swat4.Bytes.ofAscii "hostname", .eq, .str (Swat4.Bytes.ofAscii "a'b")⟩] rfl
